@@ -1244,7 +1244,9 @@ func (m *Machine) checkHavocCovered(st *State, fr *Frame, header *ssa.BasicBlock
 			idx := t.args[1]
 			fo := (*freshObj)(nil)
 			for _, f := range st.fresh[:min(cut.freshAt, len(st.fresh))] {
-				if f.ref == idx && !f.escaped {
+				// an object that was still private at the cut but is written in the body (possibly after
+				// escaping into a callee there) must not keep its pre-loop content across the cut
+				if f.ref == idx {
 					fo = f
 				}
 			}
